@@ -433,13 +433,17 @@ func (cs *connState) LookupFID(fid fid) (*fidRef, bool) {
 // the slot already it is closed, per the specification.
 func (cs *connState) InsertFID(fid fid, newRef *fidRef) {
 	cs.fidMu.Lock()
-	defer cs.fidMu.Unlock()
 	origRef, ok := cs.fids[fid]
-	if ok {
-		defer origRef.DecRef()
-	}
 	newRef.IncRef()
 	cs.fids[fid] = newRef
+	cs.fidMu.Unlock()
+	if ok {
+		// Drop the displaced reference only after fidMu has been released:
+		// this may call File.Close, which may take arbitrarily long, and
+		// every other request of the connection needs fidMu to look up its
+		// fid.
+		origRef.DecRef()
+	}
 }
 
 // Deletefid removes the given fid.
@@ -447,12 +451,15 @@ func (cs *connState) InsertFID(fid fid, newRef *fidRef) {
 // This simply removes it from the map and drops a reference.
 func (cs *connState) DeleteFID(fid fid) error {
 	cs.fidMu.Lock()
-	defer cs.fidMu.Unlock()
 	fidRef, ok := cs.fids[fid]
 	if !ok {
+		cs.fidMu.Unlock()
 		return linux.EBADF
 	}
 	delete(cs.fids, fid)
+	cs.fidMu.Unlock()
+
+	// As in InsertFID: File.Close is not called with fidMu held.
 	return fidRef.DecRef()
 }
 
